@@ -31,6 +31,8 @@ Definition extUniqueIdentifier : Z := 260.    (* 0x104 *)
 Definition extCookie : Z := 516.              (* 0x204 *)
 Definition extCookiePlaceholder : Z := 772.   (* 0x304 *)
 Definition extAuthenticator : Z := 1028.      (* 0x404 *)
+(* net/ntske/fetcher.go: MaxCookieLen *)
+Definition MaxCookieLen : Z := 896.
 (* core/server/ntske.go: for range 8 *)
 Definition keCookies : nat := 8.
 (* cookie length issued by this project's servers: EncryptedServerCookie.Encode of
@@ -256,12 +258,15 @@ Definition client0 : client := {| pool := []; c2s := []; s2c := [] |}.
 Inductive ke_result := KeOk (cookies : list bytes) (kc2s ks2c : bytes) | KeErr.
 
 (* func (f *Fetcher) FetchData: the Data returned (pool before the pop) and the
-   fetcher afterwards.  exchangeKeys reports errNoCookies for an empty list. *)
+   fetcher afterwards.  exchangeKeys reports errNoCookies for an empty list and
+   errCookieLen when a cookie is longer than MaxCookieLen. *)
+Definition cookie_len_ok (c : bytes) : bool := zlen c <=? MaxCookieLen.
 Definition fetch (c : client) (ke : ke_result) : option (client * client) :=
   let after_ke :=
     match pool c with
     | [] => match ke with
-            | KeOk (x :: r) k1 k2 => Some {| pool := x :: r; c2s := k1; s2c := k2 |}
+            | KeOk (x :: r) k1 k2 =>
+                if forallb cookie_len_ok (x :: r) then Some {| pool := x :: r; c2s := k1; s2c := k2 |} else None
             | _ => None
             end
     | _ => Some c
@@ -272,9 +277,10 @@ Definition fetch (c : client) (ke : ke_result) : option (client * client) :=
   end.
 Definition fetch_failed : client := client0.
 
-(* func (f *Fetcher) StoreCookie, called by ProcessResponse for every cookie of the response *)
+(* func (f *Fetcher) StoreCookie, called by ProcessResponse for every cookie of the
+   response: cookies longer than MaxCookieLen are ignored *)
 Definition store (c : client) (cookies : list bytes) : client :=
-  {| pool := pool c ++ cookies; c2s := c2s c; s2c := s2c c |}.
+  {| pool := pool c ++ filter cookie_len_ok cookies; c2s := c2s c; s2c := s2c c |}.
 
 (* ---- server: number of cookies issued for a decoded request ---- *)
 Definition server_issue_count (d : decoded) : Z := zlen (d_cookies d) + d_nplaceholders d.
@@ -317,7 +323,8 @@ Definition sys_exchange {C} (issue : nat -> C) (cookieLen : Z) (p : list C) (nx 
       let np := Z.max 0 (num_placeholders (zlen p) 32 cookieLen) in
       if ok then
         let requested := Z.to_nat (1 + np) in
-        let k := Z.to_nat (reply_count (1 + np) 32 cookieLen) in
+        (* StoreCookie keeps the cookies of the reply unless they are longer than MaxCookieLen *)
+        let k := if cookieLen <=? MaxCookieLen then Z.to_nat (reply_count (1 + np) 32 cookieLen) else O in
         {| s_pool := rest ++ issue_n issue nx k; s_next := (nx + requested)%nat; s_sent := c :: sent |}
       else {| s_pool := rest; s_next := nx; s_sent := c :: sent |}
   end.
